@@ -206,6 +206,7 @@ def run(ctx, replay=None):
     n_equal = n_inK = n_wf = n_div = 0
     corr_fail, spec_fail, td_fail, inK_div = [], [], [], []
     clause_hits = {}
+    rec_affected = set()      # signatures whose caller-supplied content canonicalises differently under the declared inclusive c14n
     for c in good:
         cid = c["id"]
         if c.get("nondet"):
@@ -234,8 +235,10 @@ def run(ctx, replay=None):
         detail = "relic: %s | reference: %s" % (bytes.fromhex(c["out"])[:160], bytes.fromhex(r)[:160])
         obj = {"cases": [c], "reference": r}
         if c.get("inclusive"):
-            if c["kind"].startswith("recdoc+unusedns"):
+            if c["kind"].startswith("recdoc+unusedns") or c["kind"].startswith("recdoc+body"):
                 finding("C19:c14n:rec-uri-names-inclusive-c14n", detail, obj)
+                if isinstance(cid, str) and cid.startswith("sig") and c["kind"].startswith("recdoc+body"):
+                    rec_affected.add(int(cid[3:].split(".")[0]))
             elif attrws:
                 finding("C19:c14n:attr-value-whitespace-not-normalised", detail, obj)
             else:
@@ -419,6 +422,9 @@ def run(ctx, replay=None):
                 continue
             if attr_literal_ws(bytes.fromhex(s["signed"])):      # reported as C19:sign:attr-whitespace-written-literally
                 tp["skipped_attr_ws"] += 1
+                continue
+            if s["id"] in rec_affected and s["kind"] == "enveloping":   # reported as C19:c14n:rec-uri-names-inclusive-c14n
+                tp["skipped_inclusive_differs"] = tp.get("skipped_inclusive_differs", 0) + 1
                 continue
             light = dict((k, v) for k, v in s.items() if k not in ("variants", "c14n", "gen"))
             items.append((s["signed"], s["cert"]))
